@@ -6,6 +6,15 @@ use rand::Rng;
 
 pub const PARSERS: [&str; 7] = ["cnf", "wcnf", "gcnf", "log", "aag", "aig", "btor2"];
 
+/// the literal types of the parser drivers: the primitive ones and a user-defined one with a limit of its own
+pub fn lit_types_drive(parser: &str) -> &'static [&'static str] {
+    match parser {
+        "cnf" | "wcnf" | "gcnf" | "log" => &["i8", "i16", "i32", "i64", "isize", "c1000"],
+        "aag" | "aig" | "aag_parse" | "aig_parse" | "aag_skip" | "aig_skip" => &["u8", "u16", "u32", "u64", "usize", "c100"],
+        _ => &["-"],
+    }
+}
+
 pub fn lit_types(parser: &str) -> &'static [&'static str] {
     match parser {
         "cnf" | "wcnf" | "gcnf" | "log" => &["i8", "i16", "i32", "i64", "isize"],
@@ -488,6 +497,7 @@ fn type_max(lit: &str) -> i128 {
         "i8" => i8::MAX as i128,
         "i16" => i16::MAX as i128,
         "i32" => i32::MAX as i128,
+        "c1000" => 1000,
         _ => i64::MAX as i128,
     }
 }
